@@ -73,10 +73,90 @@ def line_slices(rng, axis):
     return out
 
 
+def N(v):
+    return 'N' if v is None else str(int(v))
+
+
+def cpython_slices(ctx, model, rng):
+    """K: Model/Emul.sliceIndices / pyRange vs CPython's slice.indices / range"""
+    for _ in range(400 if ctx.quick else 20000):
+        L = int(rng.integers(0, 12))
+        a, b = (int(x) for x in rng.integers(-L - 3, L + 4, size=2))
+        st = int(rng.choice([1, 2, 3, -1, -2, -3, 5, 0])) if rng.random() < .9 else 0
+        a = [None, a][int(rng.integers(2))]
+        b = [None, b][int(rng.integers(2))]
+        st = [None, st][int(rng.integers(2))]
+        ctx.stats['corr_requests'] += 1
+        try:
+            t = slice(a, b, st).indices(L)
+            real = f'{t[0]} {t[1]} {t[2]}'
+            rr = ' '.join(str(v) for v in range(*t))
+        except ValueError:
+            real, rr = 'err', None
+        m = model.ask(f'emul indices {N(a)} {N(b)} {N(st)} {L}')
+        if m != real:
+            ctx.corr_fail('Model.Emul/sliceIndices', f'emul indices {N(a)} {N(b)} {N(st)} {L}', m, real)
+        elif rr is not None:
+            m2 = model.ask('emul range ' + real)
+            if m2 != rr:
+                ctx.corr_fail('Model.Emul/pyRange', 'emul range ' + real, m2, rr)
+
+
+def visited(acc, sub):
+    """the keys / ordinals an accessor hands to its read method for this subscript"""
+    orig = acc.values_function
+    acc.values_function = lambda v: int(v)
+    try:
+        return [int(v) for v in acc[sub]]
+    finally:
+        acc.values_function = orig
+
+
+def model_subscripts(ctx, model, rng, fz, fy, il, xl, n, desc):
+    """K: Model/Emul.lineSlice (= accessors.SliceAccessor) and Segyio.lineSlice (= segyio.Line.ranges), and
+    Emul.accessorSlice (= accessors.Accessor) vs the two implementations"""
+    for nm, axis, accz, accy in (('iline', il, fz.iline, fy.iline), ('xline', xl, fz.xline, fy.xline)):
+        d = axis[1] - axis[0]
+        subs = line_slices(rng, axis)
+        # beyond the property's grammar too (bounds that are not line numbers, steps that are not multiples): the model
+        # must still agree with what both implementations do
+        for _ in range(4):
+            a, b = (int(x) for x in rng.integers(min(axis) - 3, max(axis) + 4, size=2))
+            st = int(rng.choice([1, 2, -1, -2, d, -d, 3]))
+            subs.append(slice([None, a][int(rng.integers(2))], [None, b][int(rng.integers(2))], [None, st][int(rng.integers(2))]))
+        for sl in subs:
+            ctx.stats['corr_requests'] += 1
+            req = f"emul line {','.join(str(v) for v in axis)} {N(sl.start)} {N(sl.stop)} {N(sl.step)}"
+            ans = model.ask(req)
+            try:
+                rz = ' '.join(str(v) for v in visited(accz, sl))
+            except Exception as e:  # noqa
+                rz = 'err'
+            try:
+                ry = ' '.join(str(int(v)) for v in accy.ranges(sl, accy.default_offset)[0])
+            except Exception as e:  # noqa
+                ry = 'err'
+            if ans != f'{rz} | {ry}':
+                ctx.corr_fail('Model.Emul/lineSlice', req, ans, f'{rz} | {ry}', dict(desc, accessor=nm))
+    T = n[0] * n[1]
+    for nm, L, acc in (('depth_slice', n[2], fz.depth_slice), ('trace', T, fz.trace), ('header', T, fz.header)):
+        for _ in range(5):
+            a, b = (int(x) for x in rng.integers(-L - 2, L + 3, size=2))
+            st = int(rng.choice([1, 2, 3, -1, -2]))
+            sl = slice([None, a][int(rng.integers(2))], [None, b][int(rng.integers(2))], [None, st][int(rng.integers(2))])
+            ctx.stats['corr_requests'] += 1
+            req = f'emul acc {L} {N(sl.start)} {N(sl.stop)} {N(sl.step)}'
+            ans = model.ask(req)
+            rz = ' '.join(str(v) for v in visited(acc, sl))
+            if ans != rz:
+                ctx.corr_fail('Model.Emul/accessorSlice', req, ans, rz, dict(desc, accessor=nm))
+
+
 def run(ctx):
     rng = gen.rng_for(ctx.seed, 'c13')
     model = core.Model()
     try:
+        cpython_slices(ctx, model, rng)
         for k in range(16 if ctx.quick else 300):
             n = (int(rng.integers(3, 8)), int(rng.integers(3, 8)), int(rng.integers(3, 12)))
             arr = gen.cube(rng, n)
@@ -98,6 +178,7 @@ def run(ctx):
             desc = {'n': n, 'il': il, 'xl': xl}
             with segyio.open(sgy) as fy, seismic_zfp.open(sgz) as fz:
                 vol = fz.read_volume()
+                model_subscripts(ctx, model, rng, fz, fy, il, xl, n, desc)
                 exprs = []
                 T = n[0] * n[1]
                 for nm, axis, getter in (('iline', il, lambda f: f.iline), ('xline', xl, lambda f: f.xline)):
